@@ -1,6 +1,7 @@
 //! Matcher-side correspondence harness: runs the real nucleo-matcher (built from /repo's working tree
 //! with --cfg nucleo_verif) on cases read from a file and prints one canonical line per case.
 mod chars;
+mod layoutcmd;
 mod matchcmd;
 
 fn main() {
@@ -9,6 +10,7 @@ fn main() {
     match cmd {
         "dump-std" => chars::dump_std(),
         "chars-sweep" => chars::sweep(args[2].parse().unwrap(), args[3].parse().unwrap()),
+        "layout" => layoutcmd::run(&args[2]),
         "match" => matchcmd::run(&args[2], args.get(3).map_or(false, |s| s == "fresh")),
         _ => {
             eprintln!("usage: hm dump-std | chars-sweep [limit]");
